@@ -20,7 +20,7 @@ RULE = ("(A) the same generated spec (hierarchy 0-2, shared operators, per-node 
         "edited spec; (D) parser.replace is compared with the tokenizer oracle on random equations over identifier sets that "
         "contain one another; non-trivial = model has an edge or an override (A, B) / edit hits an identifier that is part of a "
         "longer one (C, D); distinct = distinct (spec, mode) hash")
-DECIDING = ['yaml_text_models', 'roundtrip_models', 'derived_templates', 'replace_calls', 'replace_nontrivial', 'derivatives_compared', 'two_variant_roundtrips', 'edit_dictionary_reused']
+DECIDING = ['yaml_text_models', 'roundtrip_models', 'derived_templates', 'replace_calls', 'replace_nontrivial', 'derivatives_compared', 'two_variant_roundtrips', 'edit_dictionary_reused', 'three_or_more_variant_roundtrips']
 ASSUMPTIONS = ['equation edits address whole identifiers on right-hand sides (the left-hand side form x\' is a separate finding)']
 CASE_TIMEOUT = 180
 FOCUS = ['roundtrip_with_overrides', 'roundtrip_after_update_var', 'replace_lhs_prime', 'roundtrip_same_named_templates']
@@ -241,7 +241,8 @@ def case_two_variants(case, ctx, rnd, mech, res):
         spec = case['spec']
     else:
         for _ in range(300):
-            base, feats, risk = gen.gen_net(rnd, pool=gen.SAFE_POOL, n_nodes=2, max_types=1, depth=0, n_edges=0, forbid=ctx['excluded'])
+            base, feats, risk = gen.gen_net(rnd, pool=gen.SAFE_POOL, n_nodes=rnd.choice([2, 3, 3, 4]), max_types=1, depth=0, n_edges=0,
+                                            forbid=ctx['excluded'])
             # one operator per node: with several operators the renamed dump entries also break the node-internal links
             # (part of the recorded finding F-C15-roundtrip-overrides)
             if all(len(nt['ops']) == 1 for nt in base['node_types'].values()):
@@ -287,6 +288,8 @@ def case_two_variants(case, ctx, rnd, mech, res):
                 raise observe.Mismatch(f"two-variant round trip: derivative of {'/'.join(k)} (located by its initial value) is {got[i]!r} in the "
                                        f"reloaded circuit, reference {exp[k]!r}")
     mech['two_variant_roundtrips'] = 1
+    if len(RefModel(spec).node_order) >= 3:
+        mech['three_or_more_variant_roundtrips'] = 1
     res.update(status='ok', symptom='', mech=mech, sample={'mode': 'two_variants', 'nodes': RefModel(spec).node_order})
     return res
 
